@@ -7,7 +7,7 @@ EVIDENCE = dict(
     level="model_checking",
     rule="RVFormat!Write is the independent encoder (written from the format document and the YAML, code-only extensions "
          "named). For every generated project and synth (same generators as C01/C02, plus MetaModule- and Sampler-heavy "
-         "ones, and synths wrapped around modules that are attached to a project) the real bytes are TLV-split by the harness and TLC checks chunk by chunk bytes = Write(public state) - "
+         "ones, synths wrapped around modules that are attached to a project, and objects that were loaded and then edited) the real bytes are TLV-split by the harness and TLC checks chunk by chunk bytes = Write(public state) - "
          "every differing chunk is reported with its id, CHNM and module - and evaluates each structural rule separately "
          "(header first, PEND/SEND termination, SNAM 32 bytes, PDTA = lines*tracks*8, CVAL count, CMID 8 per value, CHNM "
          "< CHNK, record sizes). MC_RVFormat checks Struct(Write(s)) on the bounded model. non-trivial = at least 2 modules.",
@@ -40,7 +40,21 @@ def run(ctx):
         for k in range(2 if q else 30):
             add("%s#%d" % (t, k), api.Synth(gen.rand_module(rnd, cl[t], spec, depth=1, in_project=False)))
     for i in range(20 if q else 300):
-        add("heavy%d" % i, gen.rand_project(rnd, spec, depth=2, types=["MetaModule", "Sampler", "MultiSynth", "Analog generator"], nmods=4))
+        hp = gen.rand_project(rnd, spec, depth=2, types=["MetaModule", "Sampler", "MultiSynth", "Analog generator"], nmods=4)
+        add("heavy%d" % i, hp)
+        # what a LOADED and then edited object writes must be the encoding of its current state too (nothing kept from the load)
+        if i % 2 == 0:
+            out, lq = fmt.load(hp.read())
+            if lq is not None:
+                fmt.edit_in_place(lq, spec, rnd, 5)
+                add("heavy%d.loaded-edited" % i, lq)
+    for k in range(6 if q else 80):
+        sm = gen.rand_module(rnd, cl["Sampler"], spec, depth=1, in_project=False)
+        out, lq = fmt.load(api.Synth(sm).read())
+        if lq is not None:
+            fmt.edit_in_place(lq, spec, rnd, 4)
+            add("sampler%d.loaded-edited" % k, lq)
+            add("sampler%d.clone-edited" % k, api.Synth(lq.module.clone()))
     cans = []
     def canary(name, mut):
         c = json.loads(json.dumps(traces[len(cans) * 3]))
